@@ -205,16 +205,17 @@ def handle_partials(c):
         if [float(v) for v in d['steps']] != [step_of(c, k) for k in range(nsteps)]:
             bad.append('reported steps %s, steps used %s' % (d['steps'], [step_of(c, k) for k in range(nsteps)]))
     # 2. every approximated nonzero outside the declared pattern is flagged (sparse formats)
-    last = expected_fd(c, nsteps - 1)
+    # (with a list of steps: by the approximation of any of the steps)
+    efds = [expected_fd(c, j) for j in range(nsteps)]
     expected = sorted((int(r), int(k)) for r in range(nr) for k in range(nc)
-                      if not inpat[r, k] and abs(last[r, k]) > THR)
+                      if not inpat[r, k] and any(abs(e[r, k]) > THR for e in efds))
     got = d.get('uncovered_nz')
     rep = None if got is None else [[int(a), int(b)] for a, b in got]
     if fmt != 'dense':
         gl = [] if got is None else sorted((int(a), int(b)) for a, b in got)
         if gl != expected:
-            bad.append('uncovered_nz reports %s; approximated nonzeros outside the declared pattern are %s' % (
-                rep, [list(e) for e in expected]))
+            bad.append('uncovered_nz reports %s; approximated nonzeros outside the declared pattern are %s%s' % (
+                rep, [list(e) for e in expected], ' (steps %s)' % [step_of(c, j) for j in range(nsteps)] if nsteps > 1 else ''))
         if expected and 'uncovered_threshold' not in d:
             bad.append('uncovered_threshold missing')
     # 3. error magnitudes equal the differences of what is reported
